@@ -138,6 +138,36 @@ Theorem rearm_unbounded_at_zero_threshold : forall ms n,
 Proof. exact rearm_unbounded_at_zero_threshold_lemma. Qed.
 Print Assumptions rearm_unbounded_at_zero_threshold.
 
+(* Timers created by SuspendableClock.NewTimer.  [mon_run c (trace c evs)] is
+   the specification-side record of what has been observed so far (Spec.v):
+   per timer its creation instant / unsuspended time / duration (set from
+   the timeline when TNew is issued), whether Stop() has returned true and
+   whether a value has been delivered.  A value is delivered at most once,
+   never after a successful Stop(), it is the base timer's value, and it
+   comes either after more than d - threshold of unsuspended time or at the
+   cap T0 + d + maximumSuspension. *)
+Theorem timer_delivery : forall c evs e id m v ms bs,
+  ttarget e = Some id ->
+  nth_error (mo_tmrs (mon_run c (trace c evs))) id = Some m ->
+  snd (step c (run c evs) e) = ODeliver v ms bs ->
+  mt_stopped m = false /\ mt_delivered m = false /\
+  match e with
+  | TFire _ tf => v = tf /\ mt_d m - thr c < tl_uns (timeline evs) - mt_U0 m
+  | TMaxFire _ tf => v = tf /\ mt_T0 m + mt_d m + maxSusp c <= tl_now (timeline evs)
+  | _ => False
+  end.
+Proof. exact timer_delivery_lemma. Qed.
+Print Assumptions timer_delivery.
+
+(* Stop() reports true exactly if it prevented the delivery, and then a
+   sleeping loop goroutine is gone with both base timers stopped. *)
+Theorem timer_stop_result : forall c evs id m ret gone,
+  nth_error (mo_tmrs (mon_run c (trace c evs))) id = Some m ->
+  snd (step c (run c evs) (TStop id)) = OTStop ret gone ->
+  ret = negb (mt_stopped m || mt_delivered m) /\ (ret = true -> mt_parked m = false -> gone = true).
+Proof. exact timer_stop_result_lemma. Qed.
+Print Assumptions timer_stop_result.
+
 (* ---- non-vacuity ------------------------------------------------------------------------ *)
 
 Definition sec : Z := 1000000000.
@@ -172,6 +202,18 @@ Example cancelled_within_budget :
     [NewCtx (5 * sec); Arm 0; Advance 1000000000; Storage KGet false true 1000000000;
      Advance 1000000000; Cancel 0]) =
   [ONew (3605 * sec) (5 * sec); ONone; ONone; OStor 1 0 1 1; ONone; ODone ECanceled (2 * sec)].
+Proof. vm_compute. reflexivity. Qed.
+
+(* a timer of 1 s, stalled 0.4 s: re-armed for 0.4 s, delivered at 1.4 s;
+   a second one stopped while armed *)
+Example timer_compensated :
+  map snd (trace cfg1
+    [TNew sec; TArm 0; Storage KFindMissing false false 400000000; Advance 600000000; TFire 0 sec;
+     TArm 0; Advance 400000000; TFire 0 (sec + 400000000); TStop 0;
+     TNew sec; TArm 1; TStop 1; TStop 1]) =
+  [ONew (3601 * sec) sec; ONone; OStor 1 0 1 1; ONone; ORearm 400000000; ONone; ONone;
+   ODeliver (sec + 400000000) true false; OTStop false false;
+   ONew (3601 * sec) sec; ONone; OTStop true true; OTStop false false].
 Proof. vm_compute. reflexivity. Qed.
 
 (* the hypotheses of within_budget_not_cancelled are satisfiable *)
